@@ -102,7 +102,11 @@ func (c *c15Case) id() string {
 	if c.Banner == nil {
 		return fmt.Sprintf("script%d/no-banner", c.Script)
 	}
-	return fmt.Sprintf("script%d/%s@%d/%s/%s", c.Script, c.Banner.Form, c.Banner.Ord, c.Banner.Kind, c.Banner.Chunk)
+	hh := ""
+	if c.Banner.HH {
+		hh = "/hh"
+	}
+	return fmt.Sprintf("script%d/%s@%d/%s/%s%s", c.Script, c.Banner.Form, c.Banner.Ord, c.Banner.Kind, c.Banner.Chunk, hh)
 }
 
 func buildC15(sc liveScenario, c *c15Case, doApprove bool) *liveCase {
@@ -267,15 +271,23 @@ func checkC15(tier, replay string) int {
 							if chunk == "prompt-delayed" && !strings.HasSuffix(f, "own-prompt") {
 								continue
 							}
-							n++
-							c := &c15Case{Script: si, StepClass: stepClass, StepRaw: e.Raw,
-								Banner: &sim.Banner{Ord: e.Ord, Form: f, Kind: kind, Chunk: chunk}}
-							// Hash sampling: a stride would alias with the
-							// 32 combinations per step.
-							if tier == "quick" && sampleHash(c.id(), env.Seed)%4 != 0 {
-								continue
+							// The time is printed as 0:0N:00 or, by some
+							// releases, 00:0N:00; the tool accepts both.
+							for _, hh := range []bool{false, true} {
+								n++
+								c := &c15Case{Script: si, StepClass: stepClass, StepRaw: e.Raw,
+									Banner: &sim.Banner{Ord: e.Ord, Form: f, Kind: kind, Chunk: chunk, HH: hh}}
+								// Hash sampling: a stride would alias with the
+								// combinations per step.
+								mod := uint32(4)
+								if hh {
+									mod = 8
+								}
+								if tier == "quick" && sampleHash(c.id(), env.Seed)%mod != 0 {
+									continue
+								}
+								cases = append(cases, c)
 							}
-							cases = append(cases, c)
 						}
 					}
 				}
